@@ -212,3 +212,12 @@ Proof.
   rewrite !Q2R_mult, !Q2R_minus, Q2R_mult. replace (Q2R (1 # 2)) with (1 / 2) by (unfold Q2R; cbn; lra).
   repeat split; cbn [pow]; lra.
 Qed.
+
+(* second mutation sample: the unbiased variance used to tie the advantage standard deviation *)
+Local Open Scope Q_scope.
+Lemma adv_var_spec advs :
+  adv_var_Q advs == qsum (map (fun a => (a - qmean advs) * (a - qmean advs)) advs) / (qlen advs - 1).
+Proof. unfold adv_var_Q. apply Qred_correct. Qed.
+Example adv_var_examples : adv_var_Q [1; 2; 3] == 1 /\ adv_var_Q [2; 2; 5; 7] == 6 /\ adv_norm_Q [1; 3] 1 = [Qred ((1 - 2) / (1 + (1 # 100000000))); Qred ((3 - 2) / (1 + (1 # 100000000)))].
+Proof. vm_compute. repeat split; reflexivity. Qed.
+Local Open Scope R_scope.
